@@ -70,6 +70,14 @@ def run(rep, tier, seed, replay=None):
         if tier != 'quick':
             # larger trees (<= 24 nodes; the quick tier needs no bound for speed, this is extra coverage)
             _taffytree.tree_k(rep, 'C01', binp, seed + 707, 1500, family=0, maxnodes=24, key='taffytree_large')
+    # ---- deterministic corpus: unbounded DEFINITE available space (f32::INFINITY) next to max-/min-content, two passes vs a fresh tree
+    if not replay:
+        rci, outi = vh(binp, ['c01', 'infcorpus'], timeout=120)
+        if 'INFCORPUS' not in outi:
+            rep.add_broken('search', 'vh c01 infcorpus', outi[-400:])
+        for l_ in [l_ for l_ in outi.split('\n') if l_.startswith('FAIL infcorpus')][:3]:
+            rep.add_violation('relayout after switching the available space differs from a fresh layout: ' + l_[:400], {'cmd': 'vh c01 infcorpus'})
+        rep.cov['infinite_available_space_corpus_cases'] = 100
     # ---- search
     n = 600 if tier == 'quick' and not rep.broken else 6000
     if replay:
